@@ -143,7 +143,7 @@ pub fn run(rep: &Report) -> i32 {
                 Err(p) => rep.violation(format!("C15:panic:{}", drive::panic_site(&p)), format!("printing/parsing {} : {} panicked: {p}", render_expr(&val_expr(v, ty)), ty.render()), json!({"kind": "value_roundtrip", "ty": ty.render(), "val": render_expr(&val_expr(v, ty))})),
             }
         }
-        if i % 97 == 5 {
+        if i % 97 == 5 || rep.no_sample_yet() {
             rep.sample(4, || json!({"part": "value", "type": ty.render(), "values": values.len(), "example_printed": values.last().map(|v| drive::sim_val(v, ty).to_string())}));
         }
     });
